@@ -78,6 +78,7 @@ fn new_value(cfg: &GenCfg) -> Result<(Value, J), Violation> {
             let j = gen::gen_j(cfg);
             let text = gen::render(&j, &Style { ws: draw(3), esc: draw(2) });
             let v = libcall("from_str", || sonic_rs::from_str::<Value>(&text))?.map_err(|e| Violation::new("mismatch/parse-error", format!("from_str failed on {:?}: {}", oracle::truncate(&text), e)))?;
+            gen::scrub(text);
             (v, j)
         }
     })
@@ -95,6 +96,7 @@ fn parsed_start(cfg: &GenCfg) -> Result<(Value, J), Violation> {
         libcall("from_str", || sonic_rs::from_str::<Value>(&text))?.map_err(|e| Violation::new("mismatch/parse-error", format!("from_str failed on {:?}: {}", oracle::truncate(&text), e)))?
     };
     tr!("  start: parsed {}", oracle::truncate(&text));
+    gen::scrub(text);
     Ok((v, j))
 }
 
@@ -981,6 +983,52 @@ pub fn run() -> SimResult {
                     libcall("drop", move || drop(c))?;
                     if !same {
                         return Err(mismatch(&what, "PartialEq", "a value is not equal to its clone".into()));
+                    }
+                }
+                51 if draw(2) == 0 => {
+                    // equality against a freshly parsed copy whose object members are in another order
+                    // (equality is member-order-insensitive), and against a copy with one leaf changed
+                    fn shuffled(j: &J) -> J {
+                        match j {
+                            J::Arr(a) => J::Arr(a.iter().map(shuffled).collect()),
+                            J::Obj(m) => {
+                                let mut v: Vec<(String, J)> = m.iter().map(|(k, x)| (k.clone(), shuffled(x))).collect();
+                                for i in (1..v.len()).rev() {
+                                    let k = draw(i as u32 + 1) as usize;
+                                    v.swap(i, k);
+                                }
+                                J::Obj(v)
+                            }
+                            other => other.clone(),
+                        }
+                    }
+                    let perm = shuffled(&pool[hi].m);
+                    let text = gen::render(&perm, &Style { ws: draw(2), esc: 0 });
+                    tr!("{} #{} == reparsed copy with shuffled members {}", what, hi, oracle::truncate(&text));
+                    let copy = libcall("from_str", || sonic_rs::from_str::<Value>(&text))?.map_err(|e| mismatch(&what, "from_str", e.to_string()))?;
+                    let (ab, ba) = libcall("eq", || (pool[hi].v == copy, copy == pool[hi].v))?;
+                    if !ab || !ba {
+                        return Err(mismatch(&what, "PartialEq", format!("a value and a reparsed copy of it with shuffled object members compare {} / {} ({})", ab, ba, oracle::truncate(&text))));
+                    }
+                    // one leaf changed -> unequal
+                    let paths: Vec<Vec<Step>> = gen::all_paths(&perm).into_iter().filter(|p| !matches!(gen::at_path(&perm, p), Some(J::Arr(_)) | Some(J::Obj(_)))).collect();
+                    if !paths.is_empty() {
+                        let p = pick(&paths).clone();
+                        let mut changed = perm.clone();
+                        *gen::at_path_mut(&mut changed, &p).unwrap() = J::Str("\u{1}changed".into());
+                        let text2 = gen::render(&changed, &Style::plain());
+                        let other = libcall("from_str", || sonic_rs::from_str::<Value>(&text2))?.map_err(|e| mismatch(&what, "from_str", e.to_string()))?;
+                        let (ab, ba) = libcall("ne", || (pool[hi].v == other, other == pool[hi].v))?;
+                        libcall("drop", move || drop(other))?;
+                        if ab || ba {
+                            return Err(mismatch(&what, "PartialEq", format!("values that differ at {} compare equal", gen::path_str(&p))));
+                        }
+                    }
+                    gen::scrub(text);
+                    if pool.len() < 6 && chance(1, 3) {
+                        pool.push(Slot { v: copy, m: perm });
+                    } else {
+                        libcall("drop", move || drop(copy))?;
                     }
                 }
                 51 => {
